@@ -13,6 +13,7 @@
 import PdshVerif.Hostlist.LemmasClassify
 import PdshVerif.Hostlist.LemmasShiftFits
 import PdshVerif.Hostlist.LemmasExpand
+import PdshVerif.Hostlist.LemmasCli
 
 namespace PdshVerif.Hostlist
 open PdshVerif.Gen
@@ -252,15 +253,16 @@ theorem classify_level2 (s : Str) (hb : Spec.balanced 0 s = true) (h0 : (Spec.cl
     ((Spec.classify s).problems₂ = [] ↔ ∀ n ∈ (Spec.classify s).hosts₁, (Spec.readWord n).1 = []) ∧
     ((Spec.classify s).problems₂ = [] →
       (Spec.classify s).hosts₂ = (Spec.classify s).hosts₁.flatMap fun n => (Spec.readWord n).2) ∧
-    ((Spec.classify s).note64 = false → ∀ n ∈ (Spec.classify s).hosts₁, Spec.wordNote64 n = false) := by
+    ((Spec.classify s).note64 = false → ∀ n ∈ (Spec.classify s).hosts₁, Spec.wordNote64 n = false) ∧
+    ((Spec.classify s).note64 = false → note64₁ s = false) := by
   have hw := (classify_balanced s hb).1.mp h0
   have he : (List.flatMap (fun x => x.1) (List.map Spec.readWord (Spec.splitWords 0 [] s))).isEmpty = true := by
     simp only [List.isEmpty_iff, List.flatMap_eq_nil_iff, List.mem_map, forall_exists_index, and_imp,
       forall_apply_eq_imp_iff₂]
     exact hw
-  unfold Spec.classify
+  unfold Spec.classify note64₁
   simp only [hb, Bool.not_true, Bool.false_eq_true, ↓reduceIte, eraseDups_isEmpty, he]
-  refine ⟨?_, ?_, ?_⟩
+  refine ⟨?_, ?_, ?_, ?_⟩
   · constructor
     · intro h n hn
       have h' : (List.flatMap (fun x => x.1) (List.map Spec.readWord
@@ -287,34 +289,26 @@ theorem classify_level2 (s : Str) (hb : Spec.balanced 0 s = true) (h0 : (Spec.cl
   · intro h n hn
     simp only [Bool.or_eq_false_iff, List.any_eq_false] at h
     simpa using h.2 n hn
+  · intro h
+    simp only [Bool.or_eq_false_iff] at h
+    exact h.1
 
-/-- THE SECOND LEVEL, EVERY BYTE STRING (repaired variant; text of at most 10^15/16384 bytes):
-    whatever text `hostlist_create` accepted — if the spec finds no problem in its first-level
-    names either and no bound of a range within the limits reaches 2^64-1, `wcoll_expand` turns
-    the list into one that denotes exactly the spec's full expansion `hosts₂` -/
-theorem expand_text (cfg : Cfg) (h15 : cfg.fixUlongMax = true) (h16 : cfg.fixDigits = true)
+/-- `wcoll_expand` on ANY well-formed list that denotes the spec's first-level expansion of `s`
+    (whichever way it was assembled) yields the spec's full expansion -/
+theorem expand_hosts₁ (cfg : Cfg) (h15 : cfg.fixUlongMax = true) (h16 : cfg.fixDigits = true)
     (h18 : cfg.fixCurTok = true) (h22 : cfg.fixSuffixBal = true) (h23 : cfg.fixHostBuf = true)
-    (s : Str) (h : HL) (hc : create cfg s = .ok h) (hlen : MAX_RANGE * s.length ≤ 10 ^ 15)
-    (hp2 : (Spec.classify s).problems₂ = []) (h64 : (Spec.classify s).note64 = false) :
+    (s : Str) (hb : Spec.balanced 0 s = true) (h0 : (Spec.classify s).problems = [])
+    (hall : ∀ t ∈ tokens hlSep s, tokOk t)
+    (hp2 : (Spec.classify s).problems₂ = []) (h64 : (Spec.classify s).note64 = false)
+    (h : HL) (hg : h.Good) (hsf : ∀ r ∈ h.ranges.toList, r.ShiftFits)
+    (hh : h.hosts = (Spec.classify s).hosts₁) :
     ∃ h', wcollExpand cfg h = .ok h' ∧ h'.Good ∧ h'.hosts = (Spec.classify s).hosts₂ := by
-  have hcl := (create_iff_classify cfg h15 h16 h18 h22 s).mp ⟨h, hc⟩
-  have hb : Spec.balanced 0 s = true := by
-    cases hbb : Spec.balanced 0 s with
-    | true => rfl
-    | false =>
-      have hp : (Spec.classify s).problems = [.unbalanced] := by
-        unfold Spec.classify; simp [hbb]
-      rw [hp] at hcl; cases hcl.1
-  obtain ⟨hg, hh, _⟩ := create_hosts_classify cfg h15 h16 h18 h22 h23 s h hc
-  have hsf := create_shiftFits cfg h15 h16 s h hc hlen
-  obtain ⟨l1, l2, l3⟩ := classify_level2 s hb hcl.1
+  obtain ⟨l1, l2, l3, _⟩ := classify_level2 s hb h0
   have hnp := l1.mp hp2
   have hn64 := l3 h64
-  -- every first-level name is one balanced token
-  have hall := (create_ok_iff cfg h15 h16 h18 h22 s).mp ⟨h, hc⟩
   have htoks := tokens_isTok s.length s (Nat.le_refl _)
   have hnames : ∀ n ∈ (Spec.classify s).hosts₁, IsTok n ∧ bracketsBalanced 0 n = true := by
-    rw [(classify_balanced s hb).2 hcl.1, splitWords_eq_tokens s hb]
+    rw [(classify_balanced s hb).2 h0, splitWords_eq_tokens s hb]
     intro n hn
     obtain ⟨w, hw, hnw⟩ := List.mem_flatMap.mp hn
     exact readWord_names_tok w (htoks w hw) (hall w hw) n hnw
@@ -332,5 +326,104 @@ theorem expand_text (cfg : Cfg) (h15 : cfg.fixUlongMax = true) (h16 : cfg.fixDig
   rw [hh1, HL.new_hosts, List.nil_append, l2 hp2]
   have : hostsL h.ranges.toList = (Spec.classify s).hosts₁ := hh
   rw [this]
+
+theorem balanced_of_no_problem {s : Str} (h0 : (Spec.classify s).problems = []) :
+    Spec.balanced 0 s = true := by
+  cases hbb : Spec.balanced 0 s with
+  | true => rfl
+  | false =>
+    have hp : (Spec.classify s).problems = [.unbalanced] := by
+      unfold Spec.classify; simp [hbb]
+    rw [hp] at h0; cases h0
+
+/-- THE SECOND LEVEL, EVERY BYTE STRING (repaired variant; text of at most 10^15/16384 bytes):
+    whatever text `hostlist_create` accepted — if the spec finds no problem in its first-level
+    names either and no bound of a range within the limits reaches 2^64-1, `wcoll_expand` turns
+    the list into one that denotes exactly the spec's full expansion `hosts₂` -/
+theorem expand_text (cfg : Cfg) (h15 : cfg.fixUlongMax = true) (h16 : cfg.fixDigits = true)
+    (h18 : cfg.fixCurTok = true) (h22 : cfg.fixSuffixBal = true) (h23 : cfg.fixHostBuf = true)
+    (s : Str) (h : HL) (hc : create cfg s = .ok h) (hlen : MAX_RANGE * s.length ≤ 10 ^ 15)
+    (hp2 : (Spec.classify s).problems₂ = []) (h64 : (Spec.classify s).note64 = false) :
+    ∃ h', wcollExpand cfg h = .ok h' ∧ h'.Good ∧ h'.hosts = (Spec.classify s).hosts₂ := by
+  have hcl := (create_iff_classify cfg h15 h16 h18 h22 s).mp ⟨h, hc⟩
+  obtain ⟨hg, hh, _⟩ := create_hosts_classify cfg h15 h16 h18 h22 h23 s h hc
+  exact expand_hosts₁ cfg h15 h16 h18 h22 h23 s (balanced_of_no_problem hcl.1) hcl.1
+    ((create_ok_iff cfg h15 h16 h18 h22 s).mp ⟨h, hc⟩) hp2 h64 h hg
+    (create_shiftFits cfg h15 h16 s h hc hlen) hh
+
+/-! ### the `-w ARG` path for every argument: `list_split`, `wcoll_arg_process`, `hostlist_push`
+    per comma-word, `wcoll_expand` -/
+theorem tokens_dropSpace : ∀ (cw : Str), (∀ c ∈ cw, isSpace c = true → isSep hlSep c = true) →
+    tokens hlSep (cw.dropWhile isSpace) = tokens hlSep cw
+  | [], _ => rfl
+  | c :: cs, h => by
+    by_cases hsp : isSpace c = true
+    · rw [List.dropWhile_cons_of_pos hsp, tokens_dropSep hlSep c cs (h c (by simp) hsp)]
+      exact tokens_dropSpace cs (fun x hx => h x (by simp [hx]))
+    · rw [List.dropWhile_cons_of_neg hsp]
+
+/-- `hostlist_create` on a text all of whose tokens are accepted -/
+theorem create_of_tokOk (cfg : Cfg) (h15 : cfg.fixUlongMax = true) (h16 : cfg.fixDigits = true)
+    (h18 : cfg.fixCurTok = true) (h22 : cfg.fixSuffixBal = true) (h23 : cfg.fixHostBuf = true)
+    (s : Str) (hall : ∀ t ∈ tokens hlSep s, tokOk t) :
+    ∃ n, create cfg s = .ok n ∧ n.Good ∧ n.hosts = (tokens hlSep s).flatMap fun w => (Spec.readWord w).2 := by
+  obtain ⟨st', e1, g1, hh1⟩ := createToks_spec cfg h15 h16 h18 h22 h23 (tokens hlSep s) ⟨HL.new, 0⟩
+    HL.new_good hall
+  refine ⟨st'.hl, by unfold create createFrom; rw [e1], g1, ?_⟩
+  rw [hh1, HL.new_hosts, List.nil_append]
+
+theorem cliPushWords_text (cfg : Cfg) (h15 : cfg.fixUlongMax = true) (h16 : cfg.fixDigits = true)
+    (h18 : cfg.fixCurTok = true) (h22 : cfg.fixSuffixBal = true) (h23 : cfg.fixHostBuf = true) :
+    ∀ (cws : List Str) (h : HL), h.Good →
+    (∀ cw ∈ cws, plainWord cw = true ∧ tokens hlSep (cw.dropWhile isSpace) = tokens hlSep cw ∧
+      ∀ t ∈ tokens hlSep cw, tokOk t) →
+    ∃ h', cliPushWords cfg h cws = .ok (some h') ∧ h'.Good ∧
+      h'.hosts = h.hosts ++ (cws.flatMap (tokens hlSep)).flatMap fun w => (Spec.readWord w).2
+  | [], h, hg, _ => ⟨h, rfl, hg, by simp⟩
+  | cw :: cws, h, hg, hall => by
+    obtain ⟨hpl, hdt, htok⟩ := hall cw (by simp)
+    obtain ⟨n, hc, gn, hn⟩ := create_of_tokOk cfg h15 h16 h18 h22 h23 (cw.dropWhile isSpace)
+      (by rw [hdt]; exact htok)
+    obtain ⟨p1, p2⟩ := pushList_hosts h n hg gn
+    obtain ⟨h', e, g', hh'⟩ := cliPushWords_text cfg h15 h16 h18 h22 h23 cws (pushList h n) p1
+      (fun x hx => hall x (by simp [hx]))
+    refine ⟨h', ?_, g', ?_⟩
+    · unfold cliPushWords
+      simp only [hpl, Bool.not_true, Bool.false_eq_true, ↓reduceIte, hlPush, hc, e]
+    · rw [hh', p2, hn, hdt]
+      simp
+
+/-- THE WHOLE `-w ARG` PATH, EVERY ARGUMENT (repaired variant).  `hpl`: every comma-word is a plain
+    target word (no `:` `@`, not starting with `-` `^` `/` — other options' syntax); `hsp`: the only
+    white space in the argument is blank / tab (what `hostlist_create` separates at).  If the
+    independent reader finds no problem at either level and no bound reaches 2^64-1, the working
+    collective pdsh ends up with denotes exactly the spec's full expansion `hosts₂` of the text. -/
+theorem cliTargets_text (cfg : Cfg) (h15 : cfg.fixUlongMax = true) (h16 : cfg.fixDigits = true)
+    (h18 : cfg.fixCurTok = true) (h22 : cfg.fixSuffixBal = true) (h23 : cfg.fixHostBuf = true)
+    (arg : Str) (hpl : ∀ cw ∈ tokens [','] arg, plainWord cw = true)
+    (hsp : ∀ c ∈ arg, isSpace c = true → isSep hlSep c = true)
+    (hlen : MAX_RANGE * arg.length ≤ 10 ^ 15)
+    (h0 : (Spec.classify arg).problems = []) (hp2 : (Spec.classify arg).problems₂ = [])
+    (h64 : (Spec.classify arg).note64 = false) :
+    ∃ h', cliTargets cfg arg = .ok (some h') ∧ h'.Good ∧ h'.hosts = (Spec.classify arg).hosts₂ := by
+  have hb := balanced_of_no_problem h0
+  obtain ⟨_, _, _, l4⟩ := classify_level2 arg hb h0
+  obtain ⟨H, hc⟩ := (create_iff_classify cfg h15 h16 h18 h22 arg).mpr ⟨h0, l4 h64⟩
+  have hall := (create_ok_iff cfg h15 h16 h18 h22 arg).mp ⟨H, hc⟩
+  have hsplit := split_then_tokens arg
+  have hchars := tokens_chars [','] arg.length arg (Nat.le_refl _)
+  obtain ⟨h, e, hg, hh⟩ := cliPushWords_text cfg h15 h16 h18 h22 h23 (tokens [','] arg) HL.new HL.new_good
+    (fun cw hcw => ⟨hpl cw hcw,
+      tokens_dropSpace cw (fun c hc => hsp c (hchars cw hcw c hc)),
+      fun t ht => hall t (by rw [← hsplit]; exact List.mem_flatMap.mpr ⟨cw, hcw, ht⟩)⟩)
+  rw [hsplit, HL.new_hosts, List.nil_append] at hh
+  have hh1 : h.hosts = (Spec.classify arg).hosts₁ := by
+    rw [hh, (classify_balanced arg hb).2 h0, splitWords_eq_tokens arg hb]
+  obtain ⟨_, hsf⟩ := cli_shiftFits cfg h15 h16 arg h e hlen
+  obtain ⟨h', e', g', hh'⟩ := expand_hosts₁ cfg h15 h16 h18 h22 h23 arg hb h0 hall hp2 h64 h hg hsf hh1
+  refine ⟨h', ?_, g', hh'⟩
+  unfold cliTargets
+  rw [e]
+  simp only [e']
 
 end PdshVerif.Hostlist
